@@ -301,7 +301,7 @@ class Ctx:
             "violations": len(self.violations),
         }
         (EVID / f"{self.prop}.json").write_text(json.dumps(ev, indent=1, default=str))
-        for key, txt in self.known_hits:
+        for key, txt in dict.fromkeys(self.known_hits):      # one line per listed finding, however many inputs hit it
             print(f"KNOWN-FINDING: property={self.prop} {key} {txt}")
         for key, path, found in self.violations:
             rel = os.path.relpath(path, VERIF)
